@@ -180,7 +180,7 @@ def d3(cx: Cx, ob: Ob) -> None:
                 ob.violate(m.qualname, m.where, f"{ci.name}.from_curie calls `{show(c)[:50]}`, not _split(curie, sep=sep)", detail="split-args")
             head, tail = ("item", c, ("const", 0)), ("item", c, ("const", 1))
             if ci.name == "ReferenceTuple":
-                if not (op(t) == "call" and t[1] == ("param", "cls") and t[2] == (head, tail)):
+                if not (op(t) == "call" and t[1] == ("param", "cls") and t[2] in ((head, tail), (("star", c),))):
                     ob.violate(m.qualname, m.where, "ReferenceTuple.from_curie does not build cls(prefix, identifier) in that order", detail="order")
                 continue
             if not (op(t) == "call" and op(t[1]) == "attr" and t[1][2] == "model_validate" and t[1][1] == ("param", "cls")):
@@ -212,8 +212,9 @@ def d3(cx: Cx, ob: Ob) -> None:
             isstr = any(g.kind == "guard" and g.b is True and op(g.a) == "call" and callee_name(g.a) == "isinstance" and g.a[2][0] == v for g in ctx.guards)
             if isstr:
                 ob.site(f"{m.where} {m.qualname}", show(t)[:70])
-                dd = t[4] if op(t) == "new" else t
-                items = {k[1]: val for k, val in dd[1] if k is not None and is_const(k)} if op(dd) == "dict" else {}
+                from ..rules import dict_items as _di
+
+                items = _di(s, t) or {}
                 sc = [x for x in subterms(t) if op(x) == "call" and x[1] == ("func", f"{API}._split")]
                 if not sc:
                     ob.violate(m.qualname, m.where, "the string pre-validator does not parse through _split", detail="no-split")
